@@ -43,7 +43,7 @@ func GenOps(rt *rapid.T, n, minLen, maxLen int) []Op {
 		return pick(label, func(i int) bool { return guess[i] != None && guess[i] != Owner })
 	}
 	for len(ops) < target {
-		switch rapid.IntRange(0, 21).Draw(rt, "shape") {
+		switch rapid.IntRange(0, 22).Draw(rt, "shape") {
 		case 0: // request-to-join flow
 			x := nonMember("x")
 			ops = append(ops, Op{Kind: "invite", Actor: manager("a")}, Op{Kind: "request_join", Actor: x, Ref: -1})
@@ -157,6 +157,12 @@ func GenOps(rt *rapid.T, n, minLen, maxLen int) []Op {
 			ops = append(ops, Op{Kind: "invite", Actor: owner}, Op{Kind: "request_join", Actor: x, Ref: -1})
 			p := goodPerm.Draw(rt, "p")
 			ops = append(ops, Op{Kind: "batch", Actor: owner, Sub: []Op{{Kind: "accept", Target: x, Perm: p}, {Kind: "invite_revoke", Ref: -1}}})
+			guess[x] = p
+		case 19: // an account with a pending join request enters through an open invite instead
+			x := nonMember("x")
+			p := goodPerm.Draw(rt, "p")
+			ops = append(ops, Op{Kind: "invite", Actor: owner}, Op{Kind: "request_join", Actor: x, Ref: -1},
+				Op{Kind: "invite_anyone", Actor: owner, Perm: p}, Op{Kind: "invite_join", Actor: x, Ref: -1})
 			guess[x] = p
 		case 18: // re-add a removed member
 			x := member("x")
